@@ -5,7 +5,7 @@
     [build_closing_transaction]) on top of the rs2v-GENERATED fee/dust/anchor functions. *)
 Require Import LdkV.Prim.U64 LdkV.Prim.Rs2vLib LdkV.Gen.Consts LdkV.Gen.ChanUtilsFees LdkV.Gen.TxBuilder
   LdkV.Gen.C01Closing LdkV.Model.CommitAmounts LdkV.Model.Chan LdkV.Model.ChanSys LdkV.Model.CoopClose
-  LdkV.Proofs.C01Amounts LdkV.Proofs.C01Limits LdkV.Proofs.C01Chan LdkV.Proofs.C01Close.
+  LdkV.Proofs.C01Amounts LdkV.Proofs.C01Limits LdkV.Proofs.C01Chan LdkV.Proofs.C01Close LdkV.Proofs.C01Agree.
 From Coq Require Import Permutation.
 Open Scope Z_scope.
 
@@ -218,6 +218,56 @@ Theorem C01_send_limits_keep_an_output :
     (min_nondust_msat false fr (cst_counterparty_dust_limit_satoshis k) ct <= a \/
      has_output funder (hb - a) cb fr rnd (cst_counterparty_dust_limit_satoshis k) ct = true).
 Proof. exact send_limits_keep_an_output. Qed.
+
+(** ** Agreement between the two peers
+
+    The FULL statement is NOT proved (kept here as a comment, nothing is admitted):
+
+      C01_agreement : forall s0 ls s1, sys_wf2 s0 (a freshly opened channel pair) ->
+        run s0 ls = ROk s1 (ANY list of labels/oracles of Model/ChanSys.v, any length) ->
+        forall x v rest, out_queue s1 x = M_Commit v :: rest -> c_disconnected (node s1 (negb x)) = false ->
+          mirror_eqb (c_value_sat ..) v (build_view (node s1 (negb x)) (c_holder_cn ..) false) = true.
+
+    Missing for it: the two-party inductive invariant (the per-HTLC joint state of sender and receiver
+    LocalAnnounced<->absent/RemoteAnnounced, Committed<->AwaitingRemoteRevokeToAnnounce/
+    AwaitingAnnouncedRemoteRevoke/Committed, RemoteRemoved<->LocalRemoved, AwaitingRemoteRevokeToRemove/
+    AwaitingRemovedRemoteRevoke<->LocalRemoved/gone, indexed by which of add / remove / commitment_signed /
+    revoke_and_ack messages are still in the two queues, plus the balance and feerate relations and the
+    reestablish roll-back) and its preservation lemma for each of the eight labels.
+
+    What IS proved, [C01_agreement_bounded]: the same conclusion for every label list (ALL interleavings,
+    including single-message deliveries, holding-cell frees, a fee update, disconnect/reconnect) over the
+    explicit alphabet [ag_alpha] up to an explicit depth from each of the six start states [ag_starts]
+    (fresh channel; both directions committed; two HTLCs in different states per direction with a claim in
+    a holding cell and commitment_signed in flight both ways; the same after a disconnect+reconnect; a fee
+    update in flight; disconnected) — by exhaustive exploration inside Coq ([explore], sound by
+    [explore_sound]), not by testing. The commitment both sides then sign/validate has the same number,
+    the same feerate, mirrored HTLC sets and complementary balances, hence (being a function of these,
+    [view_amounts]) the same outputs; conservation for it is [C01_commit_conserves]. *)
+Theorem C01_agreement_bounded :
+  forall start depth, In (start, depth) ag_starts ->
+  forall ls s1, (List.length ls < depth)%nat -> Forall (fun l => In l ag_alpha) ls ->
+  sys_steps ag_oracle start ls = ROk s1 ->
+  forall x v rest, out_queue s1 x = M_Commit v :: rest -> c_disconnected (node s1 (negb x)) = false ->
+    cv_number v = c_holder_cn (node s1 (negb x)) /\
+    mirror_eqb (c_value_sat (node s1 (negb x))) v
+      (build_view (node s1 (negb x)) (c_holder_cn (node s1 (negb x))) false) = true.
+Proof. exact agreement_bounded. Qed.
+
+Example C01_agreement_start_nontrivial :
+  let s := after pre2 in
+  map (fun h => (p_id (oh h), out_code (ost h))) (c_out (s_n0 s)) = [(0, 1); (1, 0)] /\
+  map (fun h => (p_id (ih h), in_code (ist h))) (c_in (s_n1 s)) = [(0, 3); (1, 0)] /\
+  map (fun h => (p_id (oh h), out_code (ost h))) (c_out (s_n1 s)) = [(0, 1); (1, 0)] /\
+  map (fun h => (p_id (ih h), in_code (ist h))) (c_in (s_n0 s)) = [(0, 3)] /\
+  c_hc (s_n1 s) = [HC_Claim 0] /\
+  (exists v, s_q01 s = [M_Commit v]) /\ (exists h v, s_q10 s = [M_Add h; M_Commit v]).
+Proof. exact ag_start_nontrivial. Qed.
+
+Example C01_agreement_starts_reachable :
+  forallb (fun p => match sys_steps ag_oracle ex_sys p with ROk _ => true | RErr _ => false end)
+          [pre1; pre2; pre3; pre4; pre5] = true.
+Proof. exact ag_prefixes_run. Qed.
 
 (** Cooperative close, fee-range negotiation ([Model/CoopClose.v] over the GENERATED
     [calculate_closing_fee_limits] arithmetic and [closing_signed] clamps): the non-funder's maximum is the
